@@ -38,10 +38,13 @@ func runC08(p *Prog, r *Report) {
 	r.MinInstances["C08.R3"] = 5
 	r.MinInstances["C08.R4"] = 4
 	r.MinInstances["C08.R5"] = 4
+	r.MinInstances["C08.R6"] = 1
 	c08R1R4(p, r)
 	c08R2(p, r)
 	c08R3(p, r)
 	c08R5(p, r)
+	c08R6(p, r)
+	c08R7(p, r)
 }
 
 func emtField(v ssa.Value) string {
@@ -713,6 +716,41 @@ func c08R5(p *Prog, r *Report) {
 		return
 	}
 	body := hdr.Succs[0]
+	// a guard before the loop that makes the same test on the loop's starting index (the window
+	// is not empty): its non-empty side is as good as the loop body
+	var nonEmpty []*ssa.BasicBlock
+	{
+		hiff := hdr.Instrs[len(hdr.Instrs)-1].(*ssa.If)
+		hbo := hiff.Cond.(*ssa.BinOp)
+		hph := hbo.X.(*ssa.Phi)
+		var first ssa.Value
+		for i, e := range hph.Edges {
+			if !hdr.Dominates(hdr.Preds[i]) {
+				first = e
+			}
+		}
+		last := hbo.Y
+		for _, b := range fn.Blocks {
+			iff, ok := b.Instrs[len(b.Instrs)-1].(*ssa.If)
+			if !ok || b == hdr || first == nil {
+				continue
+			}
+			bo, ok := iff.Cond.(*ssa.BinOp)
+			if !ok {
+				continue
+			}
+			side := -1
+			switch {
+			case bo.X == first && bo.Y == last && bo.Op == token.GTR, bo.X == last && bo.Y == first && bo.Op == token.LSS:
+				side = 1
+			case bo.X == first && bo.Y == last && bo.Op == token.LEQ, bo.X == last && bo.Y == first && bo.Op == token.GEQ:
+				side = 0
+			}
+			if side >= 0 && len(b.Succs[side].Preds) == 1 {
+				nonEmpty = append(nonEmpty, b.Succs[side])
+			}
+		}
+	}
 	n := 0
 	// reads in the finder and in helpers it hands the sample slice to
 	InstrsDeep(fn, 2, func(d DeepInstr) {
@@ -722,10 +760,174 @@ func c08R5(p *Prog, r *Report) {
 		}
 		n++
 		inside := body.Dominates(d.Top.Block())
+		for _, ne := range nonEmpty {
+			if ne == d.Top.Block() || ne.Dominates(d.Top.Block()) {
+				inside = true
+			}
+		}
 		r.Check(inside, "C08.R5", fmt.Sprintf("sample read #%d of the finder is inside the search window test", n), p.InstrPos(ia), "dominated by the true branch of index <= last",
 			"the samples are indexed outside the loop that tests the search index against the last searchable index: when the window is empty (fewer samples than the look-back after a reset or a length change) this read is out of range and panics block processing")
 	})
 	if n == 0 {
 		r.Bad("C08.R5", "sample reads of the finder", p.Pos(fn.Pos()), "the finder does not read the sample slice it is given")
+	}
+}
+
+// ---- R6: the step is taken between neighbouring samples -----------------------------------------
+
+// c08R6: the edge criterion compares the current sample with the one just before it.  In the
+// finder's loop the value subtracted from raw[i] is raw[i-1] read in place, or a value carried
+// round the loop that is raw[first-1] on entry and the current sample on EVERY way round; a way
+// round that carries the old value on (a `continue` that forgets to refresh it) compares the next
+// sample with one two back, and the result then depends on where the block ends.
+func c08R6(p *Prog, r *Report) {
+	fn := p.Func("", "", "edgeMultiFindNextTriggerInd")
+	if fn == nil || len(fn.Params) == 0 {
+		return
+	}
+	raw := fn.Params[0]
+	pc := NewPolyCtx(fn)
+	isSample := func(v ssa.Value) (ssa.Value, bool) { // index of a (converted) element read of raw
+		ld, ok := stripConv(v).(*ssa.UnOp)
+		if !ok || ld.Op != token.MUL {
+			return nil, false
+		}
+		ia, ok := ld.X.(*ssa.IndexAddr)
+		if !ok || resolveCell(ia.X) != ssa.Value(raw) {
+			return nil, false
+		}
+		return ia.Index, true
+	}
+	n := 0
+	Instrs(fn, func(in ssa.Instruction) {
+		sub, ok := in.(*ssa.BinOp)
+		if !ok || sub.Op != token.SUB || !InLoop(sub) {
+			return
+		}
+		ci, isCur := isSample(sub.X)
+		if !isCur {
+			return
+		}
+		// only the step that feeds a comparison (the edge test)
+		feeds := false
+		for _, ref := range *sub.Referrers() {
+			if bo, ok := ref.(*ssa.BinOp); ok {
+				switch bo.Op {
+				case token.LSS, token.LEQ, token.GTR, token.GEQ:
+					feeds = true
+				}
+			}
+		}
+		if !feeds {
+			return
+		}
+		n++
+		key := "the step of the edge test is the current sample minus the one before it"
+		if pi, isPrev := isSample(sub.Y); isPrev {
+			r.Check(pc.Of(ci).Sub(pc.Of(pi)).Equal(polyConst(1)), "C08.R6", key, p.InstrPos(sub), "raw[i] - raw[i-1]", "the step is taken between samples that are not neighbours")
+			return
+		}
+		ph, isPhi := stripConv(sub.Y).(*ssa.Phi)
+		if !isPhi {
+			r.Unk("C08.R6", key, p.InstrPos(sub), "the value subtracted from the current sample is neither raw[i-1] nor a value carried round the loop")
+			return
+		}
+		bad := ""
+		for k, e := range ph.Edges {
+			pred := ph.Block().Preds[k]
+			if !ph.Block().Dominates(pred) {
+				// entry: the sample before the first index
+				if ei, ok := isSample(e); !ok || !pc.Of(ci).Sub(pc.Of(ei)).Equal(polyConst(1)) {
+					// the current index at entry is the loop's first index: compare with phi's entry
+					okEntry := false
+					if ei2, ok2 := isSample(e); ok2 {
+						if cph, isCPhi := stripConv(ci).(*ssa.Phi); isCPhi {
+							for j, ce := range cph.Edges {
+								if !cph.Block().Dominates(cph.Block().Preds[j]) && pc.Of(ce).Sub(pc.Of(ei2)).Equal(polyConst(1)) {
+									okEntry = true
+								}
+							}
+						}
+					}
+					if !okEntry {
+						bad = "on entry the carried value is not the sample before the first index"
+					}
+				}
+				continue
+			}
+			// a way round: the carried value must be this iteration's current sample
+			ev := stripConv(e)
+			if ev == ssa.Value(ph) {
+				bad = "the way round the loop through " + p.InstrPos(pred.Instrs[len(pred.Instrs)-1]) + " carries the old value on without refreshing it"
+				continue
+			}
+			if q, isQ := ev.(*ssa.Phi); isQ {
+				for _, qe := range q.Edges {
+					if stripConv(qe) == ssa.Value(ph) {
+						bad = "a way round the loop carries the old value on without refreshing it (merged at " + p.InstrPos(q) + ")"
+					}
+				}
+				continue
+			}
+			if _, ok := isSample(e); !ok && ev != stripConv(sub.X) {
+				bad = "the value carried round the loop is not the current sample"
+			}
+		}
+		r.Check(bad == "", "C08.R6", key, p.InstrPos(sub), "carried value = raw[first-1] on entry, the current sample on every way round", bad+": the next sample is then compared with one two back, a rejected glitch is followed by a spurious edge, and the outcome depends on where the block boundary falls")
+	})
+	if n == 0 {
+		r.Unk("C08.R6", "the step of the edge test", p.Pos(fn.Pos()), "no difference of samples feeding a comparison found in the finder's loop")
+	}
+}
+
+// ---- R7: the pending trigger is turned into a record early only when a whole record lies before the search horizon
+
+// c08R7: after the edge loop the newest trigger v may be recordised at once only if no later
+// trigger can fall within one record of it: v + nsamp < X, where X is the first frame not yet
+// searched - the very value handed to the record-spec function as "the next possible trigger".
+// Proven from the guards that control that call (guard dominance, also through a predicate
+// helper); measured against the end of the data instead, the record is cut at the search horizon.
+func c08R7(p *Prog, r *Report) {
+	fn := p.Func("", "EMTState", "edgeMultiComputeRecordSpecs")
+	if fn == nil {
+		return
+	}
+	g := NewGuardCtx(p, fn, nil)
+	n := 0
+	Instrs(fn, func(in ssa.Instruction) {
+		call, ok := in.(*ssa.Call)
+		if !ok || call.Call.StaticCallee() == nil || call.Call.StaticCallee().Name() != "edgeMultiShouldRecord" || InLoop(call) || len(call.Call.Args) < 5 {
+			return
+		}
+		n++
+		v, x, nsamp := call.Call.Args[1], call.Call.Args[2], call.Call.Args[4]
+		goal := g.PC.Of(x).Sub(g.PC.Of(v)).Sub(g.PC.Of(nsamp)).Sub(polyConst(1))
+		key := "the pending trigger is recordised early only when a full record lies before the search horizon"
+		if g.Prove(goal, call) {
+			r.OK("C08.R7", key, p.InstrPos(call), "v + nsamp < (next frame to inspect) proven from the controlling guards")
+			return
+		}
+		// positive evidence of the other measure: the guards prove v + nsamp < end of data only
+		if len(fn.Params) >= 3 {
+			var rawPrm, f0 ssa.Value
+			for _, prm := range fn.Params {
+				if _, isSl := prm.Type().Underlying().(*types.Slice); isSl {
+					rawPrm = prm
+				} else if isIntLike(prm.Type()) {
+					f0 = prm
+				}
+			}
+			if rawPrm != nil && f0 != nil {
+				goal2 := g.PC.lenOf(rawPrm).Add(g.PC.Of(f0)).Sub(g.PC.Of(v)).Sub(g.PC.Of(nsamp)).Sub(polyConst(1))
+				if g.Prove(goal2, call) {
+					r.Bad("C08.R7", key, p.InstrPos(call), "the guards that control the call establish v + nsamp < end of the data, not v + nsamp < first frame not yet searched (the value passed as the next possible trigger): the last samples of a block are unsearched, a trigger there may still follow within one record, so the pending trigger is written too early and its record is cut at the search horizon (or dropped in isolated mode)")
+					return
+				}
+			}
+		}
+		r.Unk("C08.R7", key, p.InstrPos(call), "could not prove `"+goal.String()+" >= 0` from the guards that control the call: not decided whether the early record is measured against the search horizon")
+	})
+	if n == 0 {
+		r.Unk("C08.R7", "around-the-corner call of the record-spec function", p.Pos(fn.Pos()), "no call of edgeMultiShouldRecord outside the edge loop")
 	}
 }
